@@ -42,3 +42,42 @@ Definition core (t : token) : str * nat * nat * flag := (tvalue t, tline t, toff
 
 (* [i] is the position of an occurrence of "*/" in [l] *)
 Definition closes_at (l : str) (i : nat) : Prop := exists a b, l = a ++ "*" :: "/" :: b /\ length a = i.
+
+(* ------------------------------------------------------------------ whole inputs (several lines) *)
+(* a line added to a comment token that is still open *)
+Definition extend (t : token) (s : str) : token :=
+  mkTok (match tvalue t with [] => s | v => v ++ "010" :: s end) (tline t) (toffset t) (tcomment t) (tflag t).
+(* the text [l], which begins at offset [o] of its line, ends inside a C comment whose token is [t0]: "/*", then delimiter
+   characters, then from the offset of [t0] a text with no closing delimiter, which is the value of [t0] and white space *)
+Definition ends_in_open_comment (o : nat) (l : str) (t0 : token) : Prop :=
+  exists a d v w, l = a ++ "/" :: "*" :: d ++ v ++ w /\ delims d /\ toffset t0 = o + length a + 2 + length d /\
+                  tvalue t0 = v /\ blank w /\ (forall j, ~ closes_at (v ++ w) j) /\ comment_flag (tflag t0).
+(* [in_cov n ls ts]: the lines [ls], the first one being line [n] read with no comment open, are described by [ts];
+   [open_cov n t0 ls tfin ts]: the same when a comment is open, [t0] being its token so far: [tfin] is its final token *)
+Inductive in_cov : nat -> list str -> list token -> Prop :=
+| ic_nil : forall n, in_cov n [] []
+| ic_closed : forall n l ls ts rest,
+    covers 0 l ts -> Forall (fun t => tline t = n) ts -> in_cov (S n) ls rest -> in_cov n (l :: ls) (ts ++ rest)
+| ic_opens : forall n l ls ts t0 tfin rest,
+    covers 0 l (ts ++ [t0]) -> Forall (fun t => tline t = n) (ts ++ [t0]) -> ends_in_open_comment 0 l t0 ->
+    open_cov (S n) t0 ls tfin rest -> in_cov n (l :: ls) (ts ++ tfin :: rest)
+with open_cov : nat -> token -> list str -> token -> list token -> Prop :=
+| oc_end : forall n t0, open_cov n t0 [] t0 []
+| oc_mid : forall n t0 l ls tfin rest,
+    (forall j, ~ closes_at l j) -> open_cov (S n) (extend t0 l) ls tfin rest -> open_cov n t0 (l :: ls) tfin rest
+| oc_close : forall n t0 l ls i ts rest,
+    closes_at l i -> (forall j, j < i -> ~ closes_at l j) ->
+    covers (i + 2) (skipn (i + 2) l) ts -> Forall (fun t => tline t = n) ts -> in_cov (S n) ls rest ->
+    open_cov n t0 (l :: ls) (extend t0 (firstn i l)) (ts ++ rest)
+| oc_close_opens : forall n t0 l ls i ts t1 tfin rest,
+    closes_at l i -> (forall j, j < i -> ~ closes_at l j) ->
+    covers (i + 2) (skipn (i + 2) l) (ts ++ [t1]) -> Forall (fun t => tline t = n) (ts ++ [t1]) ->
+    ends_in_open_comment (i + 2) (skipn (i + 2) l) t1 ->
+    open_cov (S n) t1 ls tfin rest ->
+    open_cov n t0 (l :: ls) (extend t0 (firstn i l)) (ts ++ tfin :: rest).
+(* the lines of a text *)
+Fixpoint lines_of (cur_rev : str) (s : str) : list str :=
+  match s with
+  | [] => [rev cur_rev]
+  | c :: tl => if Ascii.eqb c "010" then rev cur_rev :: lines_of [] tl else lines_of (c :: cur_rev) tl
+  end.
